@@ -9,6 +9,7 @@ KNOWN = os.path.join(HERE, 'known_findings.json')
 NATIVE_PY = os.environ.get('VERIF_NATIVE_PYTHON', '/venv/bin/python')
 
 _last = {}
+PARTIAL = False  # set by `--only`: a partial run cannot generate every ledger clause; the completeness check is skipped (and said so)
 
 
 def load_known():
@@ -162,7 +163,7 @@ def conclude(prop, tier, seed, mod, cresults, obligations, wall, extra_info=None
 
     # ledger: every clause discharged on the pinned tree must be generated again
     missing = []
-    if ledger is not None:
+    if ledger is not None and not PARTIAL:
         present = set('%s|%s' % (o.fn, o.clause) for o in obligations)
         for ent in ledger.get('discharged', []):
             if ent not in present:
@@ -210,7 +211,7 @@ def conclude(prop, tier, seed, mod, cresults, obligations, wall, extra_info=None
     np_ = [o for o in obligations if not o.bounded]
     summary = '%s %s: %d obligations (%d unbounded, %d bounded), %d discharged, %d refuted (%d known findings), %d undecided; %d functions; %.1fs' % (
         prop, tier, len(obligations), len(np_), len(nb), len(proved), len(refuted), len(known_hits), len(unknown), len(set(cr.contract.fn for cr in cresults)), wall)
-    print(summary)
+    print(summary + (' [partial run (--only): ledger completeness not checked]' if PARTIAL else ''))
     for l in lines:
         print(l)
     _last[prop] = dict(obligations=obligations, cresults=cresults)
